@@ -3,11 +3,17 @@
     log-sink zip) with a reference reader is driven through PackCodec's own actions for every pack / container of a
     small world; the laws of PackCodec are the invariants.  Three refuted variants show the laws have teeth at design
     level: long-form marker 8 (collides with the length byte of a wide project code), unpacking that does not stamp
-    onode, unpacking in reverse order.
+    onode, unpacking in reverse order, a reader that sign-extends an unsigned 16-bit cell (the hit-map pack of the small
+    world: cells over the boundaries of the WIRE cell and beyond it).
 (A) Trace_PackCodec (Strict = FALSE): the real code.  Every pack type is populated by reflection (private state
     included), written by the real writer, read back, written again; the carried set of every instance is derived
     from the real writer (one leaf changed at a time).  Containers and record-list packs are built through the public
     setters from registered items, sent over the wire and unpacked.  CreatePack for all 65536 type codes.
+    Fields narrower on the wire than in the pack are filled from the domain of their WIRE cell (every boundary of it) and
+    judged one-sidedly (only the written value is reduced to what the cell carries); lists and tables whose count travels
+    in one byte are filled to 127..129 / 254 / 255 elements in every sixth instance; record-list packs and the composite
+    pack are also built with element counts at the boundaries of their 16-bit count cell (gen counts: 127..257,
+    32766..65535 elements drawn from three registered items).
 (drift) Trace_PackCodec_drift.cfg (Strict = TRUE): the same traces against the TRANSCRIBED tables of the spec
     (registry, per-type carried fields, header bytes, type tag): disagreement alone is a stale spec: exit 2
     (spec_drift), never a violation."""
@@ -26,16 +32,26 @@ def pending_findings(run):
 
 
 def drift(run, out, meta):
-    for k, job in enumerate(meta.get("jobs", [])):
-        if not run.thorough() and job["trace"].startswith("c03_codec") and not job["trace"].endswith("_000.ndjson"):
-            continue    # quick tier: registry, containers, per-type tables and the first codec file
-        p = os.path.join(out, job["trace"])
-        if not open(p).read().strip():
-            continue
-        st = run.trace_states
-        acc, hwm, n, r = run.validate_file(job["spec"], p, cfg="Trace_PackCodec_drift.cfg")
-        run.trace_states = st
+    """second, strict pass over the traces (the long lists of gen counts add nothing to it); one TLC per file, in parallel"""
+    from concurrent.futures import ThreadPoolExecutor
+    jobs = [j for j in meta.get("jobs", []) if not j["trace"].startswith("c03_counts")
+            and open(os.path.join(out, j["trace"])).read(64).strip()]
+    st = run.trace_states
+
+    def one(job):
+        try:
+            return job, run.validate_file(job["spec"], os.path.join(out, job["trace"]), cfg="Trace_PackCodec_drift.cfg")
+        except vf.MachineryError as ex:
+            return job, ex
+    with ThreadPoolExecutor(max_workers=max(1, min(6, vf.NCPU // 3))) as pool:
+        results = list(pool.map(one, jobs))
+    run.trace_states = st
+    for job, res in results:
+        if isinstance(res, vf.MachineryError):
+            raise res
+        acc, hwm, n, r = res
         if not acc:
+            p = os.path.join(out, job["trace"])
             line = open(p).read().splitlines()[hwm - 1]
             try:
                 e = json.loads(line)
@@ -65,12 +81,14 @@ def body(run):
     run.mc("MC_PackCodec", cfg="MC_PackCodec_marker8.cfg", expect_violation="CarriedRestored", workers=2)
     run.mc("MC_PackCodec", cfg="MC_PackCodec_nostamp.cfg", expect_violation="UnpackLaw", workers=2)
     run.mc("MC_PackCodec", cfg="MC_PackCodec_reverse.cfg", expect_violation="UnpackLaw", workers=2)
+    run.mc("MC_PackCodec", cfg="MC_PackCodec_signedcell.cfg", expect_violation="CarriedRestored", workers=2)
     out, meta = run.drive("c03")
     run.absorb(meta)
     run.validate(out, meta)
     run.selftest(out, meta, gen="codec", field="consumed")
     run.selftest(out, meta, gen="lszip", field="status")
     run.selftest(out, meta, gen="recs", field="items")
+    run.selftest(out, meta, gen="counts", field="outi")
     if run.violations:
         vf.log("drift check skipped: the verdict pass already rejected real-code behaviour")
     else:
@@ -78,10 +96,12 @@ def body(run):
     run.assumptions += [
         "pack state is projected by reflection (unexported fields through reflect.NewAt/unsafe, golib tables through their public enumerations, tagged values as atoms via the C02 projection); integers as 8-byte tuples, floats as bit patterns read from memory",
         "the carried set of an instance is derived from the real writer: a leaf is carried iff writing a fresh copy (rebuilt from the same seed) in which only that leaf is changed gives other bytes or makes the writer fail; leaves without a probe (presence of an interface-typed section, opaque types) are not compared",
-        "normalisation the format defines: nil == empty for blobs, texts, lists and tables; hit-map cells travel as unsigned 16 bits; a tag hash of 0 with a non-empty tag map is computed by the writer (reference = value after Write); a transaction record with an error and error level 0 is read as level WARNING (re-encoding then stable from the second generation); entries of hash tables without insertion order (IntIntMap, IntKeyMap) may be permuted by a re-encode",
+        "normalisation the format defines: nil == empty for blobs, texts, lists and tables; a cell narrower on the wire than the field that holds it (hit-map cells: unsigned 16 bits; ServerInfoPack.Version: signed 24 bits) carries the low bytes of the written value and the reader owes exactly that cell value, zero- resp. sign-extended -- only the WRITTEN value is reduced, the value read back is compared as it is; a tag hash of 0 with a non-empty tag map is computed by the writer (reference = value after Write); a transaction record with an error and error level 0 is read as level WARNING (re-encoding then stable from the second generation); entries of hash tables without insertion order (IntIntMap, IntKeyMap) may be permuted by a re-encode",
         "documented limits of the writers are respected by the generator: counts that travel in one byte (event attributes <= 200 + 4 reserved keys, short arrays) stay below 256, ServerInfoPack.Version is a 3-byte integer, TransactionRec versions 0/1 are refused by the reader by design, EventPack attribute keys do not use the four reserved keys",
         "an optional section the writer cannot do without (ProfilePack.Transaction, SMBasePack.Cpu/Memory, SMLogEvent.Keyword/LogRule, SMExtension maps) is always populated: when Write fails on a pack with sections left out the instance is rebuilt with every section present (counted, information only)",
         "SMBasePack: the OS field selects the record types of the cpu/memory sections (linux family -> CpuLinux/MemoryLinux, windows -> CpuWindow/MemoryWindow); the concrete type of a nested record is not compared, its fields are",
         "exact consumption is observed with a 16-byte trailer behind the encoding (DataInputX.Available), ToPack is then run over exactly the encoding",
+        "gen counts: a container of n elements is built from three registered items repeated in a random pattern (the pattern is the `items` of Build); what the decoded container returned is logged as the distinct projections plus, per position, the index of the one found there (lossless; UnpackLaw is stated per distinct pair of item and returned projection); the composite pack's count cell is taken as signed (limit 32767 inner packs), the record lists' as unsigned (65535)",
+        "sensitivity probes of an instance whose writer is observably pure (writing changed no leaf, a second write gave the same bytes) share one rebuilt copy for the leaves whose probe is an involution (change, write, change back); the shortcut is dropped for the instance if a writer fails or the copy does not project and write like the original afterwards (count in the evidence); argument noshared=1 turns it off",
         "zip containers: the compressed form is produced the way ZipSendProxyThread.doZip does (compressutil.DoZip, Status = 1); 'is a gzip stream' and the decompressed content are observed with compress/gzip of the standard library",
     ]
